@@ -527,16 +527,12 @@ func (b *BaseStore) Load(ctx context.Context, amount int) error {
 	progress := make(chan ifacelog.IPFSLogEntry)
 	defer close(progress)
 	go func() {
-		for {
-			var entry ifacelog.IPFSLogEntry
-			select {
-			case <-ctx.Done():
+		// keep reading until the channel is closed, even if ctx was
+		// cancelled: the fetcher blocks while nobody receives its progress
+		for entry := range progress {
+			if entry == nil {
+				// should not happen
 				return
-			case entry = <-progress:
-				if entry == nil {
-					// should not happen
-					return
-				}
 			}
 
 			b.recalculateReplicationStatus(entry.GetClock().GetTime())
